@@ -104,6 +104,11 @@ fn run_case(case: &Case, ev: &Evidence) -> CaseResult {
         let party = &mut w.parties[leader];
         let mut ext = ExtensionList::new();
         ext.set(mls_rs::Extension::new(EXT_TYPE.into(), vec![9, 9]));
+        if case.c(5) % 2 == 0 {
+            // the successor keeps the old group's extensions: then only the PSK tells a re-init Welcome from a branch Welcome
+            ext = party.g().context().extensions.clone();
+            ev.class("reinit_keeps_group_context_extensions");
+        }
         let ext2 = ext.clone();
         let gid2 = new_gid.clone();
         let out = guard(|| party.gm().commit_builder().reinit(Some(gid2), ProtocolVersion::MLS_10, CipherSuite::from(new_suite), ext2)?.commit_time(t).build());
@@ -191,6 +196,7 @@ fn run_case(case: &Case, ev: &Evidence) -> CaseResult {
         let order = permutation(kps.len(), rng.next() | 1);
         let kps: Vec<MlsMessage> = order.iter().map(|i| kps[*i].clone()).collect();
         let lead = mk_client(&w, leader).map_err(|e| fail(&format!("get_reinit_client_failed|{}", e.class()), e.text().into()))?;
+        let kps_again = kps.clone();
         let r = guard(|| lead.commit(kps, ExtensionList::new(), Some(t)));
         let expect_ok = variant == Variant::Equal;
         let (new_group, welcomes) = match (expect_ok, r) {
@@ -206,6 +212,30 @@ fn run_case(case: &Case, ev: &Evidence) -> CaseResult {
             (false, Err(e)) => {
                 ev.class(&format!("reinit_{variant:?}_refused:{}", e.class()));
                 ev.nontrivial(&(case, "refused"));
+                // The joiners must refuse such a successor on their own: a creator that skips the create-side check
+                // (hook: the same construction without it) sends its Welcome to the old members it kept.
+                let lead2 = mk_client(&w, leader).map_err(|e| fail(&format!("get_reinit_client_failed|{}", e.class()), e.text().into()))?;
+                match guard(|| lead2.verif_commit_unchecked(kps_again, ExtensionList::new(), Some(t))) {
+                    Ok((bad_group, welcomes)) => {
+                        let welcome = welcomes.first().ok_or_else(|| fail("no_welcome", String::new()))?.to_bytes().expect("enc");
+                        let tree = bad_group.export_tree().to_bytes().expect("tree");
+                        for (p, rc) in clients {
+                            let r = guard(|| rc.join(&MlsMessage::from_bytes(&welcome)?, Some(ExportedTree::from_bytes(&tree)?), Some(t)).map(|_| ()));
+                            match r {
+                                Ok(()) => {
+                                    return Err(fail(
+                                        &format!("joiner_accepts_reinit_successor_with_{variant:?}_member_set"),
+                                        format!("party {p} joined a re-init successor with {} members, the old group has {}", bad_group.roster().members().len(), members.len()),
+                                    ))
+                                }
+                                Err(e) if e.is_panic() => return Err(panic_failure(P, "ReinitClient::join", &e)),
+                                Err(e) => ev.class(&format!("joiner_refuses_reinit_{variant:?}:{}", e.class())),
+                            }
+                        }
+                    }
+                    Err(e) if e.is_panic() => return Err(panic_failure(P, "verif_commit_unchecked", &e)),
+                    Err(e) => ev.class(&format!("unchecked_creator_failed:{}", e.class())),
+                }
                 return Ok(());
             }
             (true, Ok(x)) => x,
@@ -235,6 +265,49 @@ fn run_case(case: &Case, ev: &Evidence) -> CaseResult {
             let lag = stale_group.clone();
             if guard(|| lag.get_reinit_client(None, None)).is_ok() {
                 return Err(fail("reinit_client_from_group_without_pending_reinit", String::new()));
+            }
+        }
+        // mismatched Welcomes: (a) the re-init Welcome is not a branch of the old group, (b) a branch of the old group that
+        // borrows the announced group id is not the re-init successor
+        {
+            let full_tree = new_group.export_tree().to_bytes().expect("tree");
+            for p in &included {
+                let old = w.parties[*p].g().clone();
+                let r = guard(|| old.join_subgroup(&MlsMessage::from_bytes(&welcome)?, Some(ExportedTree::from_bytes(&full_tree)?), Some(t)).map(|_| ()));
+                match r {
+                    Ok(()) => return Err(fail("reinit_welcome_accepted_as_branch", format!("party {p}: join_subgroup accepted the Welcome of the re-init successor"))),
+                    Err(e) if e.is_panic() => return Err(panic_failure(P, "join_subgroup(re-init welcome)", &e)),
+                    Err(e) => ev.class(&format!("reinit_welcome_refused_as_branch:{}", e.class())),
+                }
+            }
+            if new_suite == old_suite && sig_compatible {
+                let mut bkps = vec![];
+                let mut brcs = vec![];
+                for p in &included {
+                    let rc = mk_client(&w, *p).map_err(|e| fail(&format!("get_reinit_client_failed|{}", e.class()), e.text().into()))?;
+                    bkps.push(guard(|| rc.generate_key_package(Some(t))).map_err(|e| setup_failure(P, "reinit key package", &e))?);
+                    brcs.push((*p, rc));
+                }
+                let old_leader = w.parties[leader].g().clone();
+                let gid = new_gid.clone();
+                match guard(|| old_leader.branch(gid, bkps, Some(t))) {
+                    Ok((bg, bw)) => {
+                        if let Some(bw) = bw.first() {
+                            let bwb = bw.to_bytes().expect("enc");
+                            let btree = bg.export_tree().to_bytes().expect("tree");
+                            for (p, rc) in brcs {
+                                let r = guard(|| rc.join(&MlsMessage::from_bytes(&bwb)?, Some(ExportedTree::from_bytes(&btree)?), Some(t)).map(|_| ()));
+                                match r {
+                                    Ok(()) => return Err(fail("branch_welcome_accepted_as_reinit_successor", format!("party {p}: ReinitClient::join accepted a branch of the old group"))),
+                                    Err(e) if e.is_panic() => return Err(panic_failure(P, "ReinitClient::join(branch welcome)", &e)),
+                                    Err(e) => ev.class(&format!("branch_welcome_refused_as_reinit:{}", e.class())),
+                                }
+                            }
+                        }
+                    }
+                    Err(e) if e.is_panic() => return Err(panic_failure(P, "Group::branch(after re-init)", &e)),
+                    Err(e) => ev.class(&format!("branch_after_reinit_not_possible:{}", e.class())),
+                }
             }
         }
         let mut joined: Vec<(usize, VGroup)> = vec![];
@@ -285,6 +358,7 @@ fn run_case(case: &Case, ev: &Evidence) -> CaseResult {
         let order = permutation(kps.len(), rng.next() | 1);
         let kps: Vec<MlsMessage> = order.iter().map(|i| kps[*i].clone()).collect();
         let party = &w.parties[leader];
+        let kps_again = kps.clone();
         let r = guard(|| party.g().branch(b"sub-group".to_vec(), kps, Some(t)));
         let expect_ok = matches!(variant, Variant::Equal | Variant::StrictSubset);
         let (sub, welcomes) = match (expect_ok, r) {
@@ -299,6 +373,25 @@ fn run_case(case: &Case, ev: &Evidence) -> CaseResult {
             (false, Err(e)) => {
                 ev.class(&format!("branch_{variant:?}_refused:{}", e.class()));
                 ev.nontrivial(&(case, "refused"));
+                // joiner side: a creator without the create-side check
+                match guard(|| party.g().verif_branch_unchecked(b"sub-group".to_vec(), kps_again, Some(t))) {
+                    Ok((bad, welcomes)) => {
+                        if let Some(wm) = welcomes.first() {
+                            let welcome = wm.to_bytes().expect("enc");
+                            let tree = bad.export_tree().to_bytes().expect("tree");
+                            for p in &included {
+                                let r = guard(|| w.parties[*p].g().join_subgroup(&MlsMessage::from_bytes(&welcome)?, Some(ExportedTree::from_bytes(&tree)?), Some(t)).map(|_| ()));
+                                match r {
+                                    Ok(()) => return Err(fail(&format!("joiner_accepts_branch_with_{variant:?}_member_set"), format!("party {p}"))),
+                                    Err(e) if e.is_panic() => return Err(panic_failure(P, "join_subgroup", &e)),
+                                    Err(e) => ev.class(&format!("joiner_refuses_branch_{variant:?}:{}", e.class())),
+                                }
+                            }
+                        }
+                    }
+                    Err(e) if e.is_panic() => return Err(panic_failure(P, "verif_branch_unchecked", &e)),
+                    Err(e) => ev.class(&format!("unchecked_creator_failed:{}", e.class())),
+                }
                 return Ok(());
             }
             (true, Ok(x)) => x,
